@@ -107,7 +107,10 @@ func (b *backend) Delete(ctx context.Context, r *proto.DeleteRequest) (resp *pro
 		// 1. expect revision is too old
 		// 2. concurrent modification
 		val, modRevision, getErr := b.get(ctx, r.Key, 0)
-		if getErr != nil {
+		if getErr == storage.ErrKeyNotFound {
+			// key has been deleted by a concurrent modification, there is no current kv to return any more
+			return resp, nil
+		} else if getErr != nil {
 			resp.Kv = &proto.KeyValue{
 				Key:      r.Key,
 				Value:    old.Val,
